@@ -341,6 +341,19 @@ pub fn run(thorough: bool) -> Report {
     ] {
         programs.push(p.iter().map(|l| l.to_string()).collect());
     }
+    // (vii) lines typed out of numeric order, a later line holding in lower case (as literal, remark
+    // or DATA text) what an earlier line uses as a name; and lines typed in lower case where a
+    // numeral is followed by a name or by e, a sign and digits
+    for p in [
+        vec!["20 PRINT \"int\";\"abs\";\"x1\"", "10 PRINT INT(7.5);ABS(0-3);X1"],
+        vec!["20 DATA score, fna", "10 SCORE = 1: DEF FNA(X) = X: PRINT SCORE;FNA(2)"],
+        vec!["30 REM total", "20 PRINT \"rnd\"", "10 TOTAL = 2: PRINT TOTAL;RND(1) < 1"],
+        vec!["10 e3 = 5: print 2e3", "20 x = 1.5 e1", "30 print 7 e-2; 4e+1; 1e", "40 e = 2: print 3e; 3 e 2"],
+        vec!["10 print 2E3; 7 E-2", "20 PRINT 1E; 1 E 5; 6.5E1"],
+        vec!["10 for e = 1 to 2e: print 1e1: next e"],
+    ] {
+        programs.push(p.iter().map(|l| l.to_string()).collect());
+    }
     // two-line programs over a core
     let core: Vec<String> = data_lines
         .iter()
